@@ -98,6 +98,15 @@ func (d *Driver) Key(b byte) {
 	d.Settle()
 }
 
+// KeysNoSettle presses keys without waiting for background work (a viewer that is still
+// running would never let the interface settle).
+func (d *Driver) KeysNoSettle(s string) {
+	for i := 0; i < len(s) && d.Panic == ""; i++ {
+		b := s[i]
+		d.guard(fmt.Sprintf("Update(%q)", b), func() { d.S.Update(b) })
+	}
+}
+
 func (d *Driver) Keys(s string) {
 	for i := 0; i < len(s); i++ {
 		d.Key(s[i])
